@@ -1,5 +1,5 @@
 """Per-property generators, correspondence runs, spec comparison, violation search."""
-import json, os, sys, json, random, time
+import json, os, sys, re, random, time
 import axv
 
 ROOT = axv.ROOT
@@ -689,6 +689,28 @@ PROP_KINDS = {
 }
 
 
+# forms whose complete refinement against Spec/ISA.v is a theorem; a form is listed only while the
+# theorem is still present in the Properties file (which the run has just compiled)
+REFINEMENT_THEOREMS = {
+    "Lea_r64_m": ("C01", "C01_lea_r64"), "Mov_rm64_r64": ("C01", "C01_mov_r64_r64"), "Mov_r64_rm64": ("C01", "C01_mov_r64_m64"),
+    "Add_rm64_r64": ("C02", "C02_add_rm64_r64"), "Sub_rm64_r64": ("C02", "C02_sub_rm64_r64"),
+    "Cmp_rm64_r64": ("C02", "C02_cmp_rm64_r64"), "And_rm64_r64": ("C02", "C02_and_rm64_r64"),
+    "Xor_rm64_r64": ("C02", "C02_xor_rm64_r64"), "Push_r64": ("C04", "C04_push_r64"), "Pop_r64": ("C04", "C04_pop_r64"),
+}
+
+
+def refined_forms():
+    out = {}
+    for form, (pid, thm) in REFINEMENT_THEOREMS.items():
+        try:
+            txt = open(os.path.join(axv.ROOT, "coq/theories/Properties/%s.v" % pid)).read()
+        except OSError:
+            continue
+        if re.search(r"^Theorem %s\b" % thm, txt, re.M) and ("Print Assumptions %s." % thm) in txt:
+            out[form] = thm + " (register/addressing shape stated in the theorem)"
+    return out
+
+
 def instr_check(prop_id, tier, seed, gen_filter=None, extra_cases=None, with_hw=True, codes_filter=None, n_override=None):
     """implementation vs ISA spec on generated single-instruction cases (+ spec vs host CPU)"""
     n = n_override or {"quick": 6000, "thorough": 200000}[tier]
@@ -740,6 +762,10 @@ def instr_check(prop_id, tier, seed, gen_filter=None, extra_cases=None, with_hw=
     res["extra"] = dict(differences_in_scope=ndiff, known_finding_hits=known, hardware_cases=len(hw),
                         spec_vs_hardware_disagreements=len(hwbad), forms_exercised=len(per_code),
                         hardware="host CPU via hw/hwrun" if hw else "not run")
+    refined = refined_forms()
+    res["extra"]["forms_with_refinement_theorem"] = refined
+    # relative branches are covered by C03_relative_branches (new RIP, untaken = no change)
+    res["extra"]["unproved_forms"] = sorted(k for k in per_code if k not in refined and "_rel" not in k)
     res["trusted"] = ["Spec/ISA.v + Spec/CodeSem.v as the statement of what an x86-64 CPU does; validated on this run against the host "
                       "CPU on %d cases (%d disagreements)" % (len(hw), len(hwbad))]
     broken = []
